@@ -125,7 +125,7 @@ def phaseA(jobs):
     print(Counter(m["phaseA"] for m in res))
 
 
-def phaseB(jobs, limit, only_file, tier, scale, redo, ids=None, checks=None):
+def phaseB(jobs, limit, only_file, tier, scale, redo, ids=None, checks=None, force=False):
     res = json.load(open(f"{OUT}/phaseA.json"))
     todo = [m for m in res if m["phaseA"] == "survived-tests" and (not only_file or m["file"] == only_file)]
     donef = f"{OUT}/results.json"
@@ -153,8 +153,9 @@ def phaseB(jobs, limit, only_file, tier, scale, redo, ids=None, checks=None):
                 break
             apply(d, m)
             m["verdict"] = "SURVIVED"
-            prev = {c["check"] for c in (done.get(m["id"]) or {}).get("checks", []) if c["exit"] == 0 and float(c.get("scale", "1")) >= float(scale)}
-            old_checks = [c for c in (done.get(m["id"]) or {}).get("checks", []) if c["check"] in prev]
+            prev = set() if force else {c["check"] for c in (done.get(m["id"]) or {}).get("checks", []) if c["exit"] == 0 and float(c.get("scale", "1")) >= float(scale)}
+            todo_checks = [c for c in (checks or PLAN[m["file"]][1]) if c not in prev]
+            old_checks = [c for c in (done.get(m["id"]) or {}).get("checks", []) if c["check"] not in todo_checks and c["exit"] == 0]
             m["checks"] = old_checks
             for cid in (checks or PLAN[m["file"]][1]):
                 if cid in prev:
@@ -201,6 +202,7 @@ if __name__ == "__main__":
     ap.add_argument("--scale", default="1")
     ap.add_argument("--redo", default="", help="verdicts to run again, e.g. SURVIVED,INFRA")
     ap.add_argument("--ids", default="", help="file with mutant ids (one per line) or comma list: run exactly these")
+    ap.add_argument("--force", action="store_true", help="run the checks again even if they passed before (the harness has changed)")
     ap.add_argument("--checks", default="", help="comma list of checks to run instead of the planned ones")
     a = ap.parse_args()
     if a.phase == "phaseA":
@@ -209,4 +211,4 @@ if __name__ == "__main__":
         ids = None
         if a.ids:
             ids = set(open(a.ids).read().split()) if os.path.exists(a.ids) else set(a.ids.split(","))
-        phaseB(a.jobs or 2, a.limit, a.file, a.tier, a.scale, a.redo, ids, a.checks.split(",") if a.checks else None)
+        phaseB(a.jobs or 2, a.limit, a.file, a.tier, a.scale, a.redo, ids, a.checks.split(",") if a.checks else None, a.force)
